@@ -317,8 +317,8 @@ impl Property for C06 {
     }
     fn cases(&self, tier: Tier) -> usize {
         match tier {
-            Tier::Quick => 8000,
-            Tier::Thorough => 160000,
+            Tier::Quick => 40000,
+            Tier::Thorough => 240000,
         }
     }
     fn tape_len(&self, _t: Tier) -> usize {
